@@ -45,6 +45,6 @@ res['demo_out_without'] = out[-600:]
 clean()
 for d in glob.glob('/tmp/' + '-_' + wt.strip('/').replace('/', '_') + '_*'):
     shutil.rmtree(d, ignore_errors=True)
-tag = 'r2' if '/out2/' in sd else ('r3' if '/out3/' in sd else '')
+tag = 'r2' if '/out2/' in sd else ('r3' if '/out3/' in sd else ('r4' if '/out4/' in sd else ''))
 json.dump(res, open(os.path.join('/tmp/mut/confirm', os.path.basename(os.path.dirname(sd.rstrip('/'))) + '-' + tag + os.path.basename(sd.rstrip('/')) + '.json'), 'w'), indent=1)
 print(json.dumps({k: v for k, v in res.items() if not k.startswith('demo_out')}))
